@@ -614,7 +614,7 @@ def _go_extend(f):
 NUMERIC_KINDS = frozenset('igf')          # int64 / float64: the only dtypes whose axis-0 reductions are layout independent
 REDUCTIONS = ('sum', 'prod', 'min', 'max', 'mean', 'median', 'std', 'var', 'all', 'any', 'cumsum', 'cumprod')
 STRING_RESULT_OPS = frozenset(('tb.op-list', 'op:mul-series', 'op:mul-array2d', 'op:mul2', 'op:addstr', 'astype(str)', 'astype[list](str)', 'via_str.upper'))
-FILL_OPS = frozenset(('fillna(str)', 'assign.bloc(frame)', 'fillna(L)', 'assign.bloc(L)'))
+FILL_OPS = frozenset(('fillna(str)', 'assign.bloc(frame)'))
 
 
 CELLWISE_RAISING = frozenset(('astype', 'op', 'neg', 'pos', 'abs', 'invert', 'round', 'clip'))
@@ -627,6 +627,34 @@ def _has_multi_object_block(kinds, layout):
             return True
         pos += w
     return False
+
+
+def _resolved_is_object(dtypes):
+    from static_frame.core.util import resolve_dtype_iter
+    return resolve_dtype_iter(iter(sorted(dtypes, key=str))) == np.dtype(object)
+
+
+DTYPE_ONLY_FINDINGS = frozenset(('C03-fill-block-dtype', 'C03-str-itemsize'))     # classes where ONLY a dtype may differ: values are still compared
+
+
+def strip_dtypes(o):
+    """The canonical observable with array dtypes removed (cells keep their canonical value)."""
+    if isinstance(o, tuple):
+        if o and o[0] == 'A' and len(o) == 4:
+            return ('A', o[1], strip_dtypes(o[3]))
+        return tuple(strip_dtypes(x) for x in o)
+    return o
+
+
+def values_only_case(stratum, fid, kinds, o, r, desc, key):
+    """Companion of a case tagged with a dtype-only finding class: the same comparison on values alone, NOT covered by the finding
+    (time columns excepted: their cells change class with the dtype)."""
+    if fid not in DTYPE_ONLY_FINDINGS or any(k in 'mM' for k in kinds) or o[0] == 'X' or r[0] == 'X':
+        return None
+    bad = None
+    if strip_dtypes(o) != strip_dtypes(r):
+        bad = 'values differ (not only dtypes): ' + short(o, 120) + ' vs ' + short(r, 120)
+    return Case(stratum, dict(desc, compare='values only'), py_fail=bad, tags={'stratum': 'values-only'}, key=key + '|values')
 
 
 def op_family(name):
@@ -648,8 +676,16 @@ def finding_for(name, kinds, n, layout):
         return 'C03-reduce-axis0-blockwise'
     if fam == 'reduce1' and name[:3] in ('all', 'any') and 'M' in kinds:
         return 'C03-reduce-axis0-blockwise'
+    if fam == 'reduce1' and m > 1 and len({column(k, 0, 0).dtype for k in kinds}) > 1 and _resolved_is_object({column(k, 0, 0).dtype for k in kinds}):
+        return 'C03-reduce-axis0-blockwise'        # the block-wise (composable) axis-1 path over columns whose row dtype is object
     if name.startswith('bloc') and multi and n >= 2:
         return 'C03-bloc-order'
+    if name.startswith(('fillna(L', 'fillna(U-partial', 'fillna(G+1000', 'assign.bloc(L)', 'fillna(frame-partial)')):
+        # the fill is a Frame of the receiver's column dtypes, handed over as ONE array of its row dtype: it does not fit only when that is object
+        dts = {column(k, 0, 0).dtype for k in kinds}
+        if multi and len(dts) > 1 and _resolved_is_object(dts) and any(k in 'fgMm' for k in kinds):
+            return 'C03-fill-block-dtype'
+        return None
     if name in FILL_OPS and multi:
         return 'C03-fill-block-dtype'
     if (name.startswith(('fillna_leading', 'fillna_trailing', 'fillna(fill)', 'assign.bloc-isna')) and multi
@@ -710,7 +746,7 @@ def short(o, limit=160):
 QUICK_KINDS = ['', 'i', 'f', 'U', 'O', 'b', 'ii', 'if', 'fO', 'UU', 'iii', 'iif', 'UUf', 'bbO', 'iiff', 'iUUi']
 THOROUGH_FRAMES = (
     [(k, (0, 1, 2, 3, 4)) for k in ['', 'i', 'f', 'U', 'O', 'b', 'M', 'h']]
-    + [(k, (0, 1, 3)) for k in ['ii', 'if', 'fO', 'UU', 'bb', 'OO', 'gg', 'hi']] + [('OM', (2,)), ('fgb', (2,)), ('fOO', (2,)), ('gggi', (1, 3)), ('iiif', (1, 3)), ('OOOi', (2,)), ('gggii', (2,)), ('uu', (1, 3)), ('SS', (1, 3)), ('mm', (1, 3)), ('ucu', (2,)), ('uuS', (3,)), ('mMm', (3,)), ('cc', (3,))]
+    + [(k, (0, 1, 3)) for k in ['ii', 'if', 'fO', 'UU', 'bb', 'OO', 'gg', 'hi']] + [('OM', (2,)), ('fgb', (2,)), ('fOO', (2,)), ('gggi', (1, 3)), ('iiif', (1, 3)), ('OOOi', (2,)), ('gggii', (2,)), ('uu', (1, 3)), ('SS', (1, 3)), ('mm', (1, 3)), ('ucu', (2,)), ('uuS', (3,)), ('mMm', (3,)), ('cc', (3,)), ('mi', (2,)), ('gfgf', (1, 3)), ('gff', (3,)), ('fgf', (3,)), ('ggfif', (3,))]
     + [(k, (1, 3)) for k in ['iii', 'iif', 'fii', 'UUf', 'bbO', 'hhi', 'MMi', 'ggi', 'bib']]
     + [('iiii', (0, 1, 3))] + [(k, (1, 3)) for k in ['iiff', 'iUUi', 'OOii']] + [(k, (3,)) for k in ['ifif', 'ffff', 'fiib', 'hhgg']]
     + [('iiiii', (3,)), ('iifff', (3,)), ('ifbUO', (1,))])
@@ -721,7 +757,7 @@ ALL_KINDS = 'ihgfbUOM'
 QUICK_FRAMES = [('', (0, 1, 3)), ('i', (0, 1, 3)), ('f', (0, 1, 3)), ('U', (0, 2)), ('O', (1, 3)), ('ii', (0, 1, 3)), ('if', (0, 3)),
                 ('UU', (3,)), ('fO', (2,)), ('iii', (3,)), ('iif', (2,)), ('bbO', (3,)), ('iiff', (3,)), ('iUUi', (2,)),
                 ('hi', (2,)), ('OM', (2,)), ('fgb', (2,)), ('fOO', (2,)), ('gggi', (2,)), ('iiif', (2,)), ('uu', (3,)), ('SS', (3,)), ('mm', (3,)),
-                ('ucu', (2,)), ('bb', (1, 3)), ('iiii', (3,))]
+                ('ucu', (2,)), ('bb', (1, 3)), ('mi', (2,)), ('gfgf', (3,)), ('gff', (3,)), ('iiii', (3,))]
 
 
 def frame_space(ctx):
@@ -802,6 +838,9 @@ def layout_cases(ctx, kinds, n):
                                    f"  # compare with build({kinds!r},{n},{canon!r})")}
             else:      # one shared description per frame x layout (memory); the operation is in the case key
                 desc = shared
+            extra = values_only_case('api:layout-vs-canonical', fid, kinds, o, r, desc, f'L|{kinds}|{n}|{ls}|{name}') if fid else None
+            if extra is not None:
+                yield extra
             yield Case('api:layout-vs-canonical', desc,
                        py_fail=py_fail, tags=tags, nontrivial=(r[0] != 'X'),
                        key=f'L|{kinds}|{n}|{ls}|{name}')
@@ -836,6 +875,32 @@ def pattern_mask(m, which, rng=None):
     return np.array([[rng.random() < density for _ in range(m)] for _ in range(n)], dtype=bool).reshape(n, m)
 
 
+def fill_frame(f):
+    """A fill Frame for f: pairwise different columns (1000 * (j + 1) + i), the last row label and the second column label absent."""
+    import static_frame as sf
+    n, m = f.shape
+    cols = [c for j, c in enumerate(f.columns) if j != 1]
+    rows = list(f.index)[:-1] if n > 1 else list(f.index)
+    return sf.Frame.from_items(((c, [1000.0 * (list(f.columns).index(c) + 1) + i for i in range(len(rows))]) for c in cols), index=rows)
+
+
+def fillna_frame_spec(f, r):
+    """Per-cell specification of f.fillna(fill_frame(f)): a missing cell whose labels the fill frame has takes the fill frame's cell, every other cell is unchanged."""
+    g = fill_frame(f)
+    problems = []
+    for j, c in enumerate(f.columns):
+        src = f._blocks._extract_array(None, j)
+        got = r._blocks._extract_array(None, j)
+        for i, lab in enumerate(f.index):
+            x = src[i]
+            missing = x is None or (isinstance(x, (float, np.floating)) and x != x)
+            want = g.loc[lab, c] if (missing and lab in g.index and c in g.columns) else x
+            y = got[i]
+            if not (y == want or (y != y and want != want)):
+                problems.append(f'cell ({lab},{c}) is {y!r}, the specification gives {want!r}')
+    return problems
+
+
 def missing_ops(kinds):
     fill = np.datetime64('1999-01-01') if set(kinds) == {'M'} else (-1.5 if set(kinds) <= set('fg') else -1)
     out = []
@@ -854,6 +919,8 @@ def missing_ops(kinds):
             add(f'{red}{ax}-noskipna', lambda f, red=red, ax=ax: getattr(f, red)(axis=ax, skipna=False))
     add('isna', lambda f: f.isna())
     add('notna', lambda f: f.notna())
+    if set(kinds) <= set('fgi'):
+        add('fillna(frame-partial)', lambda f: f.fillna(fill_frame(f)))
     add('fillna(fill)', lambda f: f.fillna(fill))
     add('values', lambda f: f.values)
     add('bloc-isna', lambda f: f.bloc[f.isna()])
@@ -861,7 +928,7 @@ def missing_ops(kinds):
     return out
 
 
-QUICK_PATTERNS = [('gggg', 'all-rows'), ('ggg', 'all-rows'), ('OOOO', 'all-rows'), ('MMM', 'all-rows'), ('ggOg', 'all-rows'), ('gig', 'all-rows')]
+QUICK_PATTERNS = [('gggg', 'all-rows'), ('ggg', 'all-rows'), ('igg', 'all-rows'), ('gigg', 'all-rows'), ('OOOO', 'all-rows'), ('MMM', 'all-rows'), ('ggOg', 'all-rows'), ('gig', 'all-rows')]
 THOROUGH_PATTERNS = QUICK_PATTERNS + [('gg', 'all-rows'), ('OOO', 'all-rows'), ('MMMM', 'all-rows'), ('ggOO', 'all-rows'), ('gMMg', 'all-rows'),
                                       ('Ogg', 'all-rows'), ('ggggg', 'all-rows'), ('gggOO', 'all-rows')]
 
@@ -894,6 +961,13 @@ def missing_cases(ctx):
                 r = ref[name]
                 fam = op_family(name)
                 fid = finding_for(name, kinds, n, lay)
+                if name == 'fillna(frame-partial)':        # decided cell by cell against the specification, never covered by a finding
+                    try:
+                        spec_problems = fillna_frame_spec(f, fn(f))
+                    except Exception as e:  # noqa
+                        spec_problems = [f'raised {lit.err_class(e)}']
+                    yield Case('api:missing-patterns', {'kinds': kinds, 'mask': wname, 'layout': ls, 'op': name, 'compare': 'per-cell specification'},
+                               py_fail='; '.join(spec_problems[:2]) or None, tags={'stratum': 'missing-spec'}, key=f'N|{kinds}|{wname}|{ls}|{name}|spec')
                 tags = _TAGS.get(('missing', fam, fid))
                 if tags is None:
                     tags = {'stratum': 'missing', 'family': fam}
@@ -903,6 +977,9 @@ def missing_cases(ctx):
                 py_fail = None
                 if o != r:
                     py_fail = f'{name} on layout {ls} gives {short(o)}; on the all-1-D layout of the same columns it gives {short(r)}'
+                extra = values_only_case('api:missing-patterns', fid, kinds, o, r, {'kinds': kinds, 'mask': wname, 'layout': ls, 'op': name}, f'N|{kinds}|{wname}|{ls}|{name}') if fid else None
+                if extra is not None:
+                    yield extra
                 yield Case('api:missing-patterns',
                            {'kinds': kinds, 'mask': wname, 'layout': ls, 'op': name,
                             'replay': (f"from sfv.props.c03 import masked_columns, pattern_mask, missing_ops; from sfv import zoo; cols = masked_columns({kinds!r}, <mask {wname}>); "
@@ -1022,6 +1099,9 @@ def pair_ops(kinds, n):
         ('op:f==G', lambda f, L, U, G: f == G),
         ('op:f<U', lambda f, L, U, G: f < U),
         ('fillna(L)', lambda f, L, U, G: f.fillna(L)),
+        ('fillna(U-partial)', lambda f, L, U, G: f.fillna(U.iloc[1:, 1:])),
+        ('fillna(L-reordered)', lambda f, L, U, G: f.fillna(L.iloc[::-1, ::-1])),
+        ('fillna(G+1000-partial)', lambda f, L, U, G: f.fillna((G.fillna(0) + 1000).iloc[:, :-1]) if all(k in 'ihgfu' for k in kinds) else None),
         ('assign.loc[:,b:](L)', lambda f, L, U, G: f.assign.loc[:, 'b':](L.loc[:, 'b':])),
         ('assign.iloc[:,::2](U)', lambda f, L, U, G: f.assign.iloc[:, ::2](U.iloc[:, ::2])),
         ('assign.bloc(L)', lambda f, L, U, G: f.assign.bloc[checker](L)),
@@ -1079,7 +1159,9 @@ def pair_cases(ctx, kinds, n):
     elif m >= 5:
         limit = ctx.n(200, 200)
     if limit is not None and len(pairs) > limit:
-        pairs = ctx.rng.sample(pairs, limit)
+        must = [(a, canon) for a in lays if a != canon] + [(canon, b_) for b_ in lays if b_ != canon]      # every receiver layout / argument layout at least once
+        rest = [p_ for p_ in pairs if p_ not in set(must)]
+        pairs = must + ctx.rng.sample(rest, min(limit, len(rest)))
     frames = {}
     args = {}
     for lf, lg in pairs:
@@ -1125,6 +1207,10 @@ def pair_cases(ctx, kinds, n):
             if o != r:
                 py_fail = (f'{name}: receiver layout {zoo.layout_str(lf)}, argument layout {zoo.layout_str(lg)} gives {short(o)}; '
                            f'all-1-D receiver and argument give {short(r)}')
+            extra = values_only_case('api:argument-layout', fid, kinds, o, r, {'kinds': kinds, 'rows': n, 'receiver_layout': zoo.layout_str(lf), 'argument_layout': zoo.layout_str(lg), 'op': name},
+                                     f'P|{kinds}|{n}|{zoo.layout_str(lf)}|{zoo.layout_str(lg)}|{name}') if fid else None
+            if extra is not None:
+                yield extra
             yield Case('api:argument-layout',
                        {'kinds': kinds, 'rows': n, 'receiver_layout': zoo.layout_str(lf), 'argument_layout': zoo.layout_str(lg), 'op': name,
                         'replay': f"from sfv.props.c03 import build, pair_args, pair_ops; f = build({kinds!r},{n},{lf!r}); L, U, G = pair_args({kinds!r},{n},{lg!r}); dict(pair_ops({kinds!r},{n}))[{name!r}](f, L, U, G)"}
@@ -1156,6 +1242,7 @@ def readers_cases(ctx, kinds, n):
         ls = zoo.layout_str(lay)
         ctx.count('readers')
         problems = []
+        time_problems = []
         if f.shape != (len(f.index), len(f.columns)) or f.shape != (n, m):
             problems.append(f'shape {f.shape} vs index {len(f.index)} columns {len(f.columns)}')
         if f._blocks.shape != f.shape or f.values.shape != f.shape:
@@ -1207,7 +1294,11 @@ def readers_cases(ctx, kinds, n):
                     if a is None or b_ is None:
                         same = a is b_
                     if not same:
-                        problems.append(f'cell ({i},{j}) by {route} is {got!r}, the column holds {cols[j][i]!r}')
+                        msg = f'cell ({i},{j}) by {route} is {got!r}, the column holds {cols[j][i]!r}'
+                        if a is None and isinstance(b_, (np.datetime64, np.timedelta64)) and np.isnat(b_) and values.dtype == object:
+                            time_problems.append(msg)      # NaT read through the object row: class C03-time-to-object, reported in its own case
+                        else:
+                            problems.append(msg)
         # the same reads through the Coq models: directory, columns, elements (including out-of-range probes)
         T = tb_lit(f._blocks._blocks)
         C = cols_lit(cols)
@@ -1239,6 +1330,13 @@ def readers_cases(ctx, kinds, n):
                     'kinds': kinds, 'rows': n, 'layout': ls, 'probes': len(probes)},
                    m=m_term, s=s_term, py_fail='; '.join(problems[:3]) or None,
                    tags={'stratum': 'readers'}, nontrivial=(n > 0 and m > 0), key=f'R|{kinds}|{n}|{ls}')
+        if n and any(k in 'mM' for k in kinds) and len({c.dtype for c in cols}) > 1:
+            # by construction: datetime64/timedelta64 columns read through a row whose resolved dtype is object
+            yield Case('api:readers',
+                       {'replay': f"from sfv.props.c03 import build; f = build({kinds!r},{n},{lay!r}); f.values, f.iloc[0].values, list(f.iter_array(axis=1)) against the columns",
+                        'kinds': kinds, 'rows': n, 'layout': ls, 'routes': 'row-wise readers over datetime64/timedelta64 columns in an object row'},
+                       py_fail='; '.join(time_problems[:2]) or None, tags={'stratum': 'readers', 'finding': 'C03-time-to-object'},
+                       nontrivial=True, key=f'R-time|{kinds}|{n}|{ls}')
 
 
 MAP_OPS = (
